@@ -37,7 +37,8 @@ PROPS['C05'] = {
     'level_text': ('Proof, for all character sequences and all token sequences of any length, that (i) the tokenizer returns exactly the token '
                    'sequence of the declarative token language of spec/lex.rs (maximal runs of name characters classified afterwards, whitespace '
                    'anywhere, long and short operator spellings, wild-cards / domains only in extended mode) or an error, and (ii) the parser accepts '
-                   'exactly the documented grammar and builds the unique tree it dictates.'),
+                   'exactly the documented grammar and builds the unique tree it dictates (lemma_sp_view: the tree depends only on the abstract tokens; '
+                   'lemma_accepted_unique: a text has at most one preprocessed tree).'),
     'level_note': ('Trusted: Verus/Z3, vstd, mechanical extraction + logged rewrite rules, derive(Clone/PartialEq), Display tables, '
                    'R-position (Iterator::position as its defining loop). Formulae with fewer than 2^32 tokens.'),
     'explanation': ('Each level of the recursive-descent parser (parse_1_hybrid .. parse_9_terminal_and_parentheses, '
@@ -212,8 +213,8 @@ PROPS['C14'] = {
                    'integer overflow, under the stated preconditions; (ii) "error exactly when": parse_and_minimize_* return Err exactly when the text is '
                    'outside the token language, the grammar does not derive it, a variable is free or re-quantified in its scope, or a proposition is not '
                    'a network variable (preprocess_ok); check_hctl_var_support returns false exactly when the quantifier nesting depth exceeds the number '
-                   'of spare variable sets. The composition into the string-based model_check_* entry points, the wild-card / domain validation and the '
-                   'sanitising unwrap are not yet under contract.'),
+                   'of spare variable sets; a text is never both accepted and rejected (lemma_accepted_not_rejected), so "Err exactly when rejected" is exact. The string-based model_check_* entry points (plain and extended), '
+                   'the wild-card / domain validation and the sanitising unwrap are under contract as well.'),
     'level_note': ('Assumed: wild-card counters cover the evaluations (budget_pre) -- defect D9 (a panic caused by inconsistent counters) was found by analysing '
                    'exactly this assumption and repaired, but no registered check decides it; known findings D5 / D8 (a value depending on auxiliary variables makes '
                    'the sanitising unwrap panic). Formulae shorter than 2^32 characters; stack depth is outside the model.'),
